@@ -256,6 +256,74 @@ func (p c03) Run(w *mon.Worker, idx int) mon.Result {
 		if hasRoot(ts) {
 			return skip("selection contains the root")
 		}
+		if (idx/9)%5 == 4 {
+			// the document as YAML text with comments that belong to the document as a whole (after a blank line at the end,
+			// before the next `---`): deleting direct children of the root works as anywhere else
+			tail := []string{"\n\n# trailing comment\n", "\n# end of document\n", "\n\n# note\n---\nsecond: doc\n", "\n"}[r.IntN(4)]
+			head := []string{"", "# leading\n", "---\n"}[r.IntN(3)]
+			text := head + doc.JSON() + tail
+			expr := "select(document_index == 0) | del(" + pe.String() + ")"
+			cs["expr"], cs["doc"] = expr, text
+			res.Tags = append(res.Tags, "yaml_text_with_document_comments")
+			res.Sig = fmt.Sprintf("doccomment|%s|%x", pathShape(pe), doc.ShapeHash())
+			want := ref.DeletePaths(doc, paths(ts))
+			out, yerr, pan := yqx.Eval(expr, text, "yaml", "json")
+			res.Evals++
+			if pan != nil || yerr != nil {
+				return fail("`%s` failed on the document with comments: %v %v", expr, yerr, pan)
+			}
+			gots, perr := ref.ParseJSONStream(out)
+			if perr != nil || len(gots) != 1 || !ref.EqualNum(gots[0], want) {
+				return fail("`%s`\n input (YAML text)\n%s expected %s\n observed %s", expr, text, want, clipStr(out, 400))
+			}
+			res.Verdict, res.Nontrivial = mon.Held, nontrivial(doc, ts)
+			res.Detail = fmt.Sprintf("%d location(s) removed", len(ts))
+			return res
+		}
+		if (idx/9)%5 == 0 && idx%2 == 1 {
+			// a predicate that gives SEVERAL answers for some elements and none for others: an element goes when one of
+			// ITS answers is true
+			n := 3 + r.IntN(3)
+			var els []*ref.V
+			want := &ref.V{K: ref.Seq, A: []*ref.V{}}
+			total := 0
+			for i := 0; i < n; i++ {
+				k := []int{2, 0, 1, 3, 0, 1}[(i+r.IntN(6))%6]
+				tags := &ref.V{K: ref.Seq, A: []*ref.V{}}
+				hit := false
+				for j := 0; j < k; j++ {
+					t := []string{"tmp-a", "keep", "tmp-b", "x"}[r.IntN(4)]
+					hit = hit || strings.HasPrefix(t, "tmp")
+					tags.A = append(tags.A, ref.StrV(t))
+				}
+				total += k
+				el := ref.MapV(ref.KV{K: "name", V: ref.StrV(fmt.Sprintf("c%d", i))}, ref.KV{K: "tags", V: tags})
+				els = append(els, el)
+				if !hit {
+					want.A = append(want.A, el)
+				}
+			}
+			sdoc := ref.MapV(ref.KV{K: "containers", V: ref.SeqV(els...)}, ref.KV{K: "keep", V: ref.IntV(1)})
+			expr := []string{`del(.containers[] | select(.tags[] | test("^tmp")))`, `.containers |= sort_by(.name) | del(.containers[] | select(.tags[] | test("^tmp")))`,
+				`del(.containers[] | select(.tags[] == ("tmp-a", "tmp-b")))`}[r.IntN(3)]
+			cs["expr"], cs["doc"] = expr, sdoc.JSON()
+			res.Tags = append(res.Tags, "predicate_with_several_answers")
+			if total == n {
+				res.Tags = append(res.Tags, "answers_sum_to_candidates")
+			}
+			res.Sig = fmt.Sprintf("multianswer|%s|%x", expr, sdoc.ShapeHash())
+			wdoc := ref.MapV(ref.KV{K: "containers", V: want}, ref.KV{K: "keep", V: ref.IntV(1)})
+			got, _, yerr := evalDoc(expr, sdoc)
+			res.Evals++
+			if yerr != nil {
+				return fail("`%s` failed: %v", expr, yerr)
+			}
+			if got == nil || !ref.EqualNum(got, wdoc) {
+				return fail("`%s`\n input    %s\n expected %s\n observed %s", expr, sdoc, wdoc, got)
+			}
+			res.Verdict, res.Nontrivial, res.Detail = mon.Held, true, "elements with a true answer of their own removed"
+			return res
+		}
 		if (idx/9)%5 == 3 && doc.K == ref.Map && len(doc.M) >= 2 {
 			// the list of entries of a map is a list like any other: deleting entries of it removes exactly those
 			keysOK := true
